@@ -1111,6 +1111,9 @@ THEOREMS: list[str] = [
     "HappyModel.C11.noRegress_of_fifo",
     "HappyModel.C11.stable_leader_commits_fifo",
     "HappyModel.C11.fifo_example",
+    "HappyModel.C11.kf_start_conv",
+    "HappyModel.C11.stable_leader_commits_conv_fifo",
+    "HappyModel.C11.fifo_conv_example",
     "HappyModel.C11.miLen_step",
     "HappyModel.C11.est_step",
     "HappyModel.C11.sync_step",
@@ -1181,7 +1184,10 @@ C11.hypotheses = [
     "when `ackedRun` resp. `stableRun` is dropped.",
     "stable_leader_commits_fifo: as stable_leader_commits with `fifoRun v [] s (submit :: as)` in place of `noRegressRun` (decidable: walking the action list with the list of "
     "envelopes delivered so far, each delivery to a live destination must carry a larger id than every earlier delivery on the same (src, dst) link; re-deliveries are thereby excluded); "
-    "the FIFO form is proved for the in-sync variant only (the `_conv` variant still takes `noRegressRun`).",
+    "stable_leader_commits_conv_fifo is the back-off variant with `fifoRun`: StableConv without `noRegressRun`, plus the decidable start-state hypothesis `aeBounded s L t p` for p in Q "
+    "(every AppendEntries of term t in flight from L to p has prev_log_index + len(entries) <= len(L's log)); that bound holds of every message a leader builds from a next_index <= len(log)+1, "
+    "but 'next_index never overshoots' is not among the proved invariants, so it is a hypothesis (the in-sync variant gets it from `inSync`); acknowledgements in flight and match_index are "
+    "bounded by the proved safety invariant (ARM, n_ms).",
     "stable_leader_commits_conv, stable_leader_commits_conv_obs (bundle StableConv): as StableFair without `inSync` — only p < n, p != L for p in Q — and with "
     "`convRun … p` in place of `ackedRun`: a step delivers to a live p an AppendEntries of term t from L with k <= prev+len(entries); then, alternately, the message "
     "sent in the previous step of the conversation is delivered to its (live) destination, until the message delivered to L is a successful acknowledgement. "
